@@ -54,6 +54,12 @@ func (c c17Case) build() (*world.State, *appsv1.StatefulSet) {
 		adv.Spec.Selector = &metav1.LabelSelector{MatchExpressions: []metav1.LabelSelectorRequirement{{Key: "app", Operator: metav1.LabelSelectorOpIn, Values: []string{"web"}}}}
 	case "both":
 		adv.Spec.Selector = &metav1.LabelSelector{MatchLabels: map[string]string{"app": "web"}, MatchExpressions: []metav1.LabelSelectorRequirement{{Key: "app", Operator: metav1.LabelSelectorOpExists}}}
+	case "exists":
+		adv.Spec.Selector = &metav1.LabelSelector{MatchExpressions: []metav1.LabelSelectorRequirement{{Key: "app", Operator: metav1.LabelSelectorOpExists}}}
+	case "exists+notin":
+		adv.Spec.Selector = &metav1.LabelSelector{MatchExpressions: []metav1.LabelSelectorRequirement{{Key: "app", Operator: metav1.LabelSelectorOpExists}, {Key: "tier", Operator: metav1.LabelSelectorOpNotIn, Values: []string{"cache"}}}}
+	case "label+absent":
+		adv.Spec.Selector = &metav1.LabelSelector{MatchLabels: map[string]string{"app": "web"}, MatchExpressions: []metav1.LabelSelectorRequirement{{Key: "canary", Operator: metav1.LabelSelectorOpDoesNotExist}}}
 	}
 	sts := builtinFrom(adv)
 	sts.UID = "uid-builtin-web"
@@ -69,6 +75,9 @@ func (c c17Case) build() (*world.State, *appsv1.StatefulSet) {
 		switch kind {
 		case "nomatch":
 			r.Labels["app"] = "other"
+			if strings.HasPrefix(c.Selector, "exists") {
+				delete(r.Labels, "app")
+			}
 		case "foreign":
 			r.OwnerReferences[0] = metav1.OwnerReference{APIVersion: "apps/v1", Kind: "DaemonSet", Name: "ds", UID: "uid-ds", Controller: &t}
 		}
@@ -352,7 +361,7 @@ func init() {
 			depth = 3
 		}
 		kinds := []string{world.FErr500, world.FTimeout, world.FConflict, world.FGone, world.FExists, world.FCrashBefore, world.FCrashAfter}
-		rep.Rule = fmt.Sprintf("the real helper.Upgrade on the API model: selector{matchLabels, expressions, both} x revision populations of size 0..3 over {matching, non-matching, foreign-owned} x Advanced set{absent, present equal, present different}; for every API call position of the run x fault kind %v applicable to the verb, then re-run from the resulting state with a further fault at every position, to depth %d, finally re-run without faults; oracle: at the delete of the built-in set an Advanced set with equal spec and status exists, propagation is Orphan, every revision listed at the start carries the marker and no longer matches the selector; no write on pods/claims; a fault-free re-run succeeds and the final state equals the uninterrupted run's (UIDs of the new object normalised; not compared when a `gone` fault, i.e. a concurrent deletion by someone else, changed the world). Non-trivial = at least one fault injected.", kinds, depth)
+		rep.Rule = fmt.Sprintf("the real helper.Upgrade on the API model: selector{app=web | app In (web) | app=web and app Exists | app Exists | app Exists and tier NotIn (cache) | app=web and canary DoesNotExist} x revision populations of size 0..3 over {matching, non-matching, foreign-owned} x Advanced set{absent, present equal, present different}; for every API call position of the run x fault kind %v applicable to the verb, then re-run from the resulting state with a further fault at every position, to depth %d, finally re-run without faults; oracle: at the delete of the built-in set an Advanced set with equal spec and status exists, propagation is Orphan, every revision listed at the start carries the marker and no longer matches the selector; no write on pods/claims; a fault-free re-run succeeds and the final state equals the uninterrupted run's (UIDs of the new object normalised; not compared when a `gone` fault, i.e. a concurrent deletion by someone else, changed the world). Non-trivial = at least one fault injected.", kinds, depth)
 		rep.Assumptions = []string{"the caller re-runs the helper with the same built-in object it started with", "API model of DESIGN.md Appendix A; the built-in controller and the garbage collector are not running during the upgrade"}
 		var cases []c17Case
 		var revPops [][]string
@@ -367,7 +376,7 @@ func init() {
 			}
 		}
 		genPops(nil)
-		for _, s := range []string{"matchLabels", "expressions", "both"} {
+		for _, s := range []string{"matchLabels", "expressions", "both", "exists", "exists+notin", "label+absent"} {
 			for _, p := range revPops {
 				for _, a := range []string{"absent", "equal", "different"} {
 					cases = append(cases, c17Case{Selector: s, Revs: p, Adv: a})
